@@ -518,6 +518,63 @@ Fixpoint trace (s : zstate) (rd : list (N * N)) (evs : list event) : list obs :=
       end
   end.
 
+(* ---------------------------------------------------------------- ZoneVersions / VersionMarker *)
+
+(* write.rs ZoneVersions { current: (Version, Arc<VersionMarker>), all: Vec<(Version, Weak<VersionMarker>)> }.
+   An Arc<VersionMarker> allocation is a number; its strong count is 1 for the
+   `current` field if it is the current marker, plus one per ReadZone that was
+   created while it was current (ZoneApex::read clones `current`).  `all` is in
+   Vec order (push = append). *)
+Record zversions := mkzv {
+  zv_cur : N * N;                  (* (version, marker) *)
+  zv_all : list (N * N);           (* (version, marker), Weak *)
+  zv_fresh : N;                    (* next marker allocation *)
+  zv_readers : list (N * (N * N))  (* reader slot -> the (version, marker) it pinned *)
+}.
+
+Definition zv_default : zversions := mkzv (0, 0) [(0, 0)] 1 [].
+
+Definition strong_count (z : zversions) (m : N) : N :=
+  (if snd (zv_cur z) =? m then 1 else 0) +
+  N.of_nat (length (filter (fun p => snd (snd p) =? m) (zv_readers z))).
+
+Inductive zv_op :=
+| VCommit                          (* publish_new_zone_version: update_current(next) + push_version *)
+| VAcquire (slot : N)              (* ZoneApex::read *)
+| VRelease (slot : N)              (* drop(ReadZone) *)
+| VClean.                          (* clean_versions *)
+
+(* clean_versions: retain the entries whose marker is alive; the result is the
+   greatest version (by `>` on Version) among the removed ones *)
+Definition zv_alive (z : zversions) (it : N * N) : bool :=
+  n_op clean_alive_cmp_op (strong_count z (snd it)) clean_alive_bound.
+
+Fixpoint clean_max (z : zversions) (l : list (N * N)) (acc : option N) : option N :=
+  match l with
+  | [] => acc
+  | it :: tl =>
+      if zv_alive z it then clean_max z tl acc
+      else clean_max z tl (match acc with
+                           | Some old => if ver_op clean_max_cmp_op (fst it) old then Some (fst it) else Some old
+                           | None => Some (fst it)
+                           end)
+  end.
+
+Definition zv_clean (z : zversions) : zversions * option N :=
+  (mkzv (zv_cur z) (filter (zv_alive z) (zv_all z)) (zv_fresh z) (zv_readers z), clean_max z (zv_all z) None).
+
+Definition zv_step (z : zversions) (o : zv_op) : zversions :=
+  match o with
+  | VCommit =>
+      let v := ver_next (fst (zv_cur z)) in
+      mkzv (v, zv_fresh z) (zv_all z ++ [(v, zv_fresh z)]) (zv_fresh z + 1) (zv_readers z)
+  | VAcquire slot => mkzv (zv_cur z) (zv_all z) (zv_fresh z) ((slot, zv_cur z) :: zv_readers z)
+  | VRelease slot => mkzv (zv_cur z) (zv_all z) (zv_fresh z) (filter (fun p => negb (fst p =? slot)) (zv_readers z))
+  | VClean => fst (zv_clean z)
+  end.
+
+Definition zv_run (os : list zv_op) : zversions := fold_left zv_step os zv_default.
+
 (* entry points for the correspondence driver *)
 Definition c09_cell (os : list (cop N)) (probes : list N) : list (list (N * option N) * list (option N)) :=
   (fix go (d : list (entry N)) (os : list (cop N)) :=
